@@ -438,6 +438,21 @@ type runSpec struct {
 	K        int64  `json:"end_context_after_backend_op"` // 0 = never
 }
 
+// rank orders runs from simple to complex (for the choice of the stored replay).
+func (s runSpec) rank() int64 {
+	r := s.K
+	if s.Tree != "12" {
+		r += 1 << 32
+	}
+	if s.Backend != "mem" {
+		r += 1 << 31
+	}
+	if s.Flavour != flCancel {
+		r += 1 << 30
+	}
+	return r
+}
+
 type runResult struct {
 	err              error
 	panicked         string
